@@ -22,7 +22,7 @@ def main():
             meta = json.loads((d / "meta.json").read_text())
         chk = next((v for k, v in meta.get("what_i_ran", {}).items() if k.startswith("./check")), {})
         what = (meta.get("what_i_ran", {}).get("first replay") or {}).get("what", "")
-        rows.append((d.name, pid, meta.get("title", ""), "yes" if meta.get("detected") else "NO",
+        rows.append((d.name, pid, meta.get("title", ""), "yes" if meta.get("detected") else (f"by ./check {meta['detected_by_related']}" if meta.get("detected_by_related") else "NO"),
                      "no-failing-input-found" if any("no-failing-input-found" in v for v in chk.get("violations", [])) else ("concrete replay" if meta.get("detected") else ""),
                      what[:140].replace("|", "/").replace("\n", " ")))
     out = ["# Seeded changes (each breaks one property, compiles, passes the 123 unit tests) and what the checks say",
